@@ -48,6 +48,46 @@ def short(defname):
     return "".join(out)
 
 
+def auto_flags(body):
+    """bool locals that only ever hold a constant or a copy of another such local (results of `&&`/`||`
+    materialised into a variable, verdicts returned by an inlined helper). Tracking them exactly removes the
+    infeasible paths a path-insensitive walk would see. Locals touched by tracing expansions are left out."""
+    cand = {}
+    bad = set()
+    for b in body.blocks:
+        if b.cleanup:
+            continue
+        for s in b.stmts:
+            if s.kind != "assign" or not s.place.is_local():
+                if s.kind == "assign" and s.place.local in cand:
+                    bad.add(s.place.local)
+                continue
+            l = s.place.local
+            if body.locals[l].get("s") != "bool":
+                continue
+            if body.is_noise(s):
+                bad.add(l)
+                continue
+            cand.setdefault(l, []).append(s)
+        t = b.term
+        if t.kind == "call" and t.dest is not None and t.dest.is_local() and body.locals[t.dest.local].get("s") == "bool":
+            bad.add(t.dest.local)
+    flags = set(l for l in cand if l not in bad)
+    changed = True
+    while changed:
+        changed = False
+        for l in list(flags):
+            for s in cand[l]:
+                ok = s.rv.k == "use" and s.rv.ops and (s.rv.ops[0].const_bool() is not None or (
+                    s.rv.ops[0].place is not None and s.rv.ops[0].place.is_local() and s.rv.ops[0].place.local in flags))
+                if not ok:
+                    flags.discard(l)
+                    changed = True
+                    break
+    # keep only flags that have at least one constant definition (directly or through a copy chain)
+    return sorted(flags)
+
+
 def degeneric(s):
     """remove every balanced <...> generic-argument group that follows an identifier or `::`"""
     out = []
@@ -89,6 +129,9 @@ class Graph(object):
             if s.kind == "assign" and s.place.is_local() and s.place.local in self.flags:
                 i = self.flags.index(s.place.local)
                 b = s.rv.ops[0].const_bool() if (s.rv.k == "use" and s.rv.ops) else None
+                if b is None and s.rv.k == "use" and s.rv.ops and s.rv.ops[0].place is not None and s.rv.ops[0].place.is_local() \
+                        and s.rv.ops[0].place.local in self.flags:
+                    b = val[self.flags.index(s.rv.ops[0].place.local)]
                 if b is None and s.place.local in self.pinned:
                     b = self.pinned[s.place.local]
                 val[i] = b
@@ -349,6 +392,12 @@ class Analyzer(object):
             v = None
             if self.prog is not None:
                 v = self.prog.const_value(c.get("uneval_key")) if c.get("uneval_key") else None
+            if v is not None:
+                from . import inline
+                _, pconsts = inline.pinned()
+                if pconsts is not None and short(c["uneval"]) not in pconsts:
+                    # a constant introduced after the pinned tree: fold it to its value
+                    return ("const", c["ty"], v)
             return ("constitem", c["uneval"], v)
         for k in ("int", "bool", "str", "char", "float", "bigint"):
             if k in c:
